@@ -236,7 +236,7 @@ def build_queries(facts):
             if not any(l['cfg'] for l in ls):
                 continue
             defined = z3.Or([zcfg(l['cfg']) for l in ls])
-            other_bind = [b for b in f['bindings'] if b.get('fn') == fn and b['name'] == name and not any(b['line'] == l['line'] for l in ls)]
+            other_bind = [b for b in f['bindings'] if b.get('fn') == fn and b['name'] == name and not any(b['line'] in (l['line'], l.get('pat_line')) for l in ls)]
             if other_bind:
                 continue   # also bound by a parameter / pattern: always defined
             for pth in f['paths']:
